@@ -216,6 +216,29 @@ func C16Cases(p *spec.Program, seed uint64, tier string, nSplits int) ([]*Case, 
 			run.Note = fmt.Sprintf("seeded split %d", i)
 			add("channel-equivalence/split", ref, run, Expect{Kind: "identical-file"})
 		}
+		// lists are sets: a repeated entry (right at the start, in the middle, at the end) changes nothing,
+		// on either channel
+		{
+			dup := func(l []string) []string {
+				if len(l) == 0 {
+					return l
+				}
+				out := []string{l[0], l[0]}
+				out = append(out, l[1:]...)
+				if len(l) > 2 {
+					out = append(out, l[1], l[len(l)-1], l[len(l)-1])
+				}
+				return out
+			}
+			dc := cfg.Clone()
+			dc.Types, dc.ExcludeFields, dc.ComputedFields = dup(dc.Types), dup(dc.ExcludeFields), dup(dc.ComputedFields)
+			dc.RequiredFields, dc.SensitiveFields = dup(dc.RequiredFields), dup(dc.SensitiveFields)
+			for _, ch := range []spec.Channel{spec.ChCLI, spec.ChYAML, spec.ChBoth} {
+				run := runFrom(dc.Render(allOn(ch), nil))
+				run.Note = "every list with repeated entries"
+				add(fmt.Sprintf("channel-equivalence/repeated-entries:%d", ch), ref, run, Expect{Kind: "identical-file"})
+			}
+		}
 		// the same file named in other ways (whatever names a readable file is the YAML channel)
 		if refR.Config != nil {
 			for _, via := range ConfigPathShapes {
